@@ -14,6 +14,21 @@ for line in p.stdout.splitlines():
     if ev.get('Action') in ('pass', 'fail', 'skip') and ev.get('Test'):
         res[ev['Package'] + '::' + ev['Test']] = ev['Action']
 missing = [t for t in stable if res.get(t) != 'pass']
+# timing-sensitive / flaky tests: re-run the affected top-level tests alone (up to 2 times)
+for attempt in range(2):
+    if not missing: break
+    tops = sorted({(t.split('::')[0], t.split('::')[1].split('/')[0]) for t in missing})
+    for pkg, top in tops:
+        rel = './' + pkg[len('github.com/bufbuild/protocompile'):].lstrip('/')
+        q = subprocess.run(['go', 'test', '-json', '-vet=off', '-count=1', '-run', '^%s$' % top, rel], cwd=d, env=env, capture_output=True, text=True)
+        for line in q.stdout.splitlines():
+            try: ev = json.loads(line)
+            except Exception: continue
+            if ev.get('Action') in ('pass', 'fail', 'skip') and ev.get('Test'):
+                k = ev['Package'] + '::' + ev['Test']
+                if ev['Action'] == 'pass' or k not in res or res[k] != 'pass':
+                    res[k] = ev['Action']
+    missing = [t for t in stable if res.get(t) != 'pass']
 print('stable_pass: %d, passing now: %d, not passing: %d' % (len(stable), len(stable) - len(missing), len(missing)))
 for t in sorted(missing)[:30]:
     print('  NOT PASSING:', t, res.get(t))
